@@ -49,7 +49,7 @@ fn status(i: usize) -> ContentStatus {
 }
 
 pub fn run(ctx: &mut Ctx) {
-    for case in ctx.cases(150, 20_000) {
+    for case in ctx.cases(800, 60_000) {
         let mut rng = ctx.rng(case);
         let rt = act::runtime(1);
         rt.block_on(one(ctx, case, &mut rng));
